@@ -304,6 +304,36 @@ def workload(ctx, repo):
                             ctx.case = case
                             ctx.ev("cases.sweep")
                             run_case(ctx, repo, case)
+    # the months / days part lands on 29 February of a leap year that is not
+    # the operand's own year, then the years part leaves the leap year
+    if ctx.worker == 0:
+        for L in (2000, 2004, 2020, 2096, 1904):
+            ld = R.days_before_year("gregorian", L) + 59
+            starts = []
+            for m, day0, dy in ((2, (29, 30, 31), (L - 1, 12)),
+                                (11, (29, 30, 31), (L - 1, 3)),
+                                (-13, (29, 30, 31), (L + 1, 3)),
+                                (-11, (29, 30, 31), (L + 1, 1)),
+                                (14, (29, 30, 31), (L - 1, 12)),
+                                (-25, (29, 30), (L + 2, 3))):
+                for dd in day0:
+                    starts.append(({"year": dy[0], "month_of_year": dy[1],
+                                    "day_of_month": dd}, {"months": m}))
+            for k in (62, 60, 1, 366, -1, -307, -365, -366):
+                for rep in gen.REPS:
+                    starts.append((gen.date_kwargs("gregorian", rep, ld - k),
+                                   {"days": k}))
+            for pkw, dkw in starts:
+                for yrs in (1, -1, 2, 3, -3, 5, 100, -100, 4, 0):
+                    d = dict(dkw, years=yrs)
+                    kw = dict(pkw)
+                    kw.update({"hour_of_day": 6, "minute_of_hour": 7,
+                               "second_of_minute": 8})
+                    case = {"op": ("add", "radd")[yrs % 2],
+                            "mode": "gregorian", "p": kw, "d": d}
+                    ctx.case = case
+                    ctx.ev("cases.leapday-via")
+                    run_case(ctx, repo, case)
     # long hauls: month counts of every magnitude up to whole 400-year
     # cycles (and just beside them) from the clamp-prone start days
     if ctx.worker == 0:
